@@ -32,6 +32,7 @@ func checkC11(c *Ctx) {
 	c.R.Floor("F6.gate", 3)
 	c.R.Floor("F7.read", 1)
 	c.R.Floor("F8.args", 1)
+	c.ruleGUIDByName("F13.guidname")
 	if c.ruleDefinitionAttrs("F12.def") == 0 {
 		c.R.Infof("F12.def", "-", "definition", "-", "not decided for this shape: every variable definition handed to the store by the typed accessors is a parameter of a helper")
 	}
@@ -86,6 +87,22 @@ func checkC12(c *Ctx) {
 	c.R.Floor("E.pure", 5)
 	c.R.Floor("F9.truncate", 1)
 	c.R.Floor("F10.strip", 1)
+	// a value read into a holder that was used before replaces what the holder held
+	c.ruleDecodeReplaces("G14.replace", func(f *ssa.Function) bool {
+		return strings.Contains(name(f), "efi/signature.") || strings.Contains(name(f), "/efivar.") || strings.HasPrefix(name(f), "(*efivar.")
+	})
+	// a file that holds the attributes and nothing else is the empty value
+	c.ruleBoundary("F14.empty", []string{"efivarfs/fswrapper.(*FSWrapper).ParseEfivars", "efi/attributes.ParseEfivars"}, func(need Affine) bool {
+		if need.isConst() {
+			return need.K == 4
+		}
+		if len(need.T) == 1 && need.K == 0 {
+			for sym, cf := range need.T {
+				return cf == 1 && strings.HasSuffix(sym, "attributes.SizeofAttributes")
+			}
+		}
+		return false
+	}, "a variable file of exactly 4 bytes (attributes, empty value) is read as the empty value")
 	// the store strips the descriptor only if the descriptor decoder accepts it: it must accept every legal timestamp
 	c.ruleTimeRange("G17.time", "efi/signature.ReadEFIVariableAuthencation2")
 	c.R.Floor("F11.fresh", 1)
@@ -775,4 +792,52 @@ func (c *Ctx) ruleDefinitionAttrs(rule string) int {
 		})
 	}
 	return n
+}
+
+// ruleGUIDByName (F13.guidname): the legacy access functions choose the vendor
+// GUID of a well-known variable by looking its name up in the table of image
+// security databases. A test on part of the name (a prefix, a substring) puts
+// dbDefault, dbxDefault, ... under the wrong GUID, i.e. into another file.
+func (c *Ctx) ruleGUIDByName(rule string) {
+	n := 0
+	for _, spec := range []string{"efi/attributes.ReadEfivars", "efi/attributes.WriteEfivars"} {
+		fn := c.FnOpt(spec)
+		if fn == nil {
+			continue
+		}
+		n++
+		partial, table := "", false
+		for _, g := range c.cone(fn) {
+			instrsOf(g, func(i ssa.Instruction) {
+				switch x := i.(type) {
+				case *ssa.Call:
+					switch ir.CallID(x) {
+					case "strings.HasPrefix", "strings.HasSuffix", "strings.Contains", "strings.Index", "strings.EqualFold", "strings.ToLower", "strings.ToUpper":
+						for _, a := range x.Call.Args {
+							for v := range localOperands(a) {
+								if p, ok := v.(*ssa.Parameter); ok && isStringType(p.Type()) {
+									partial = ir.CallID(x) + " at " + c.IPos(x)
+								}
+							}
+						}
+					}
+				case *ssa.Lookup:
+					if ir.HasGlobal(c.sliceOf(x.X), M+"/efi/attributes.ImageSecurityDatabases") {
+						table = true
+					}
+				}
+			})
+		}
+		switch {
+		case partial != "":
+			c.R.Violf(rule, name(fn), "guid-by-name", c.Pos(fn.Pos()), "the vendor GUID of a well-known variable is chosen by an exact lookup of its name", "the name is examined with "+partial+": names that merely begin with (or contain) a database name get that database's GUID and are read from / written to another file")
+		case table:
+			c.R.Okf(rule, name(fn), "guid-by-name", c.Pos(fn.Pos()), "the vendor GUID is chosen by looking the name up in the table of image security databases")
+		default:
+			c.R.Infof(rule, name(fn), "guid-by-name", c.Pos(fn.Pos()), "not decided for this shape: how the vendor GUID is chosen from the name is not identified")
+		}
+	}
+	if n == 0 {
+		c.R.Infof(rule, "-", "guid-by-name", "-", "not decided for this shape: the legacy access functions are not present")
+	}
 }
